@@ -179,6 +179,12 @@ def _worker(args):
 
     prop = load_prop(pid)
     world = get_world()
+    # pristine copy of this process for the cold-process oracle: forked before the first run
+    from sim.cold import ColdServer
+
+    cold = ColdServer()
+    cold.start()
+    cold_every = int(os.environ.get("VERIF_COLD_EVERY", getattr(prop, "COLD_EVERY", {}).get(tier, 4 if tier == "quick" else 2)))
     agg = Agg()
     known = load_known()
     t0 = time.perf_counter()
@@ -194,7 +200,9 @@ def _worker(args):
             break
         try:
             sc = make_scenario(prop, seed, idx, tier)
-            run, viols, stats = engine.decide(sc, prop, full_digest=False)
+            use_cold = cold_every > 0 and (idx // stride) % cold_every == 0
+            sc["cold"] = bool(use_cold)
+            run, viols, stats = engine.decide(sc, prop, full_digest=False, cold=cold if use_cold else None)
         except HarnessError as e:
             agg.harness.append({"run": idx, "error": repr(e), "tb": traceback.format_exc()[-1500:]})
             break
@@ -270,6 +278,7 @@ def _worker(args):
                 agg.viols.append({"sig": engine.signature(v), "scenario": sc2, "violation": v})
         idx += nworkers
     agg.c["wall_worker"] = 0
+    cold.stop()
     faulthandler.cancel_dump_traceback_later()
     return agg.to_wire()
 
@@ -320,7 +329,17 @@ def _minimize_job(args):
     from sim import minimize as mz
 
     prop = load_prop(pid)
-    res = mz.minimize(item["scenario"], prop, item["sig"], budget_n)
+    cold = None
+    if item["scenario"].get("cold"):
+        from sim.cold import ColdServer
+        from sim.world import get_world
+
+        get_world()
+        cold = ColdServer()
+        cold.start()
+    res = mz.minimize(item["scenario"], prop, item["sig"], budget_n, cold=cold)
+    if cold is not None:
+        cold.stop()
     faulthandler.cancel_dump_traceback_later()
     if res is None:
         return None
@@ -539,6 +558,7 @@ def run_check(pid, tier, seed, workers=None, budget=None):
             "faults_fired_total": c["faults_fired"],
             "op_mix": dict(labels.most_common(60)),
             "l1": {k: c[k] for k in ("l1_ops", "l1_evals", "l1_multi", "l1_unchecked", "l1_relaxed")},
+            "l1_cold_process": {"client_programs_re_executed_in_pristine_fork": c["cold_clients"], "ops_compared": c["cold_ops"]},
             "l2": {k: v for k, v in c.items() if k.startswith("l2_")},
             "probes": probes,
             "top_preemption_sites": dict(sites.most_common(25)),
@@ -600,7 +620,17 @@ def replay(path):
         print("replay %s: backends agree on this tree" % path)
         return EXIT_OK
     prop = load_prop(rp["property"])
-    run, viols, _ = engine.decide(rp["scenario"], prop)
+    cold = None
+    if rp["scenario"].get("cold"):
+        from sim.cold import ColdServer
+        from sim.world import get_world
+
+        get_world()
+        cold = ColdServer()
+        cold.start()
+    run, viols, _ = engine.decide(rp["scenario"], prop, cold=cold)
+    if cold is not None:
+        cold.stop()
     hit = [v for v in viols if engine.signature(v) == rp["signature"]]
     same = rp.get("digest") in (None, run.digest)
     if hit:
